@@ -343,6 +343,29 @@ func dischargeBounds(c *Ctx, s partialSite) (bool, string) {
 			}
 		}
 	}
+	// constant bounds on a slice allocated in this function with make([]T, C + nonneg): every
+	// constant index is within the first C elements
+	if ms, ok := strip(unspill(x)).(*ssa.MakeSlice); ok && len(idx) > 0 {
+		if cmin, ok := minMakeLen(ms.Len); ok {
+			all := true
+			_, isSlice := s.Instr.(*ssa.Slice)
+			for _, iv := range idx {
+				k, isC := constInt(iv)
+				if !isC || k < 0 || (isSlice && k > cmin) || (!isSlice && k >= cmin) {
+					all = false
+				}
+			}
+			if all {
+				return true, fmt.Sprintf("constant bounds within a make([]T, %d + non-negative) of this function", cmin)
+			}
+		}
+	}
+	// buf[lo:k+n] with n the count returned by Read(buf[k:]): 0 <= n <= len(buf)-k
+	if sl, ok := s.Instr.(*ssa.Slice); ok && sl.High != nil && sl.Max == nil {
+		if how, ok := offsetCountBounded(sl); ok {
+			return true, how
+		}
+	}
 	// s[k:] after strings.HasPrefix(s, const) with len(const) >= k
 	if sl, ok := s.Instr.(*ssa.Slice); ok && sl.Low != nil && sl.High == nil {
 		if k, ok := constInt(sl.Low); ok {
@@ -377,9 +400,35 @@ func dischargeBounds(c *Ctx, s partialSite) (bool, string) {
 			}
 		}
 	}
+	// x[i] with i := slices.Index(x, ...) / slices.IndexFunc(x, ...) behind i >= 0 (or i != -1)
+	if len(idx) == 1 {
+		if call, ok := strip(idx[0]).(*ssa.Call); ok {
+			f := call.Call.StaticCallee()
+			if f != nil && f.Origin() != nil {
+				f = f.Origin()
+			}
+			if f != nil && f.Pkg != nil && f.Pkg.Pkg.Path() == "slices" && strings.HasPrefix(f.Name(), "Index") && len(call.Call.Args) > 0 && sameLoc(call.Call.Args[0], x) {
+				isI := func(v ssa.Value) bool { return strip(v) == ssa.Value(call) }
+				g := GCmp(func(a ssa.Value, op token.Token, b ssa.Value) bool {
+					if isI(a) {
+						k, ok := constInt(b)
+						return ok && (op == token.GEQ && k == 0 || op == token.GTR && k == -1 || op == token.NEQ && k == -1)
+					}
+					if isI(b) {
+						k, ok := constInt(a)
+						return ok && (op == token.LEQ && k == 0 || op == token.LSS && k == -1 || op == token.NEQ && k == -1)
+					}
+					return false
+				})
+				if pass, _ := mustPass(fn, s.Instr, g); pass {
+					return true, "index returned by slices." + f.Name() + " on the same slice, behind a test that it is not -1"
+				}
+			}
+		}
+	}
 	// x[rand.Intn(len(x))]
 	if len(idx) == 1 {
-		if call, ok := strip(idx[0]).(*ssa.Call); ok && strings.HasSuffix(calleeName(call), ".Intn") {
+		if call, ok := strip(idx[0]).(*ssa.Call); ok && (strings.HasSuffix(calleeName(call), ".Intn") || strings.HasSuffix(calleeName(call), ".IntN")) {
 			if ln, ok := strip(arg(call, 0)).(*ssa.Call); ok {
 				if b, ok := ln.Call.Value.(*ssa.Builtin); ok && b.Name() == "len" && sameLoc(ln.Call.Args[0], x) {
 					return true, "index is rand.Intn(len(x)) of the same x (x non-empty: NewHandler refuses an empty host list)"
@@ -436,6 +485,34 @@ func dischargeBounds(c *Ctx, s partialSite) (bool, string) {
 						return true, "index helper: at every call site " + partialReasons[0].reason
 					}
 					_ = why
+				}
+			}
+		}
+	}
+	// x[:len(x)-k] behind strings/bytes.HasSuffix(x, const) with len(const) >= k, or behind len(x) >= k
+	if sl, ok := s.Instr.(*ssa.Slice); ok && sl.High != nil && sl.Low == nil && sl.Max == nil {
+		if bo, ok := strip(sl.High).(*ssa.BinOp); ok && bo.Op == token.SUB && isLenOf(bo.X, sl.X) {
+			if k, ok := constInt(bo.Y); ok && k >= 0 {
+				g := GTrue(func(v ssa.Value) bool {
+					call, ok := v.(*ssa.Call)
+					if !ok || (calleeName(call) != "strings.HasSuffix" && calleeName(call) != "bytes.HasSuffix") || !sameLoc(arg(call, 0), sl.X) {
+						return false
+					}
+					if p, ok := constString(arg(call, 1)); ok {
+						return int64(len(p)) >= k
+					}
+					if cv, ok := strip(arg(call, 1)).(*ssa.Convert); ok {
+						if p, ok := constString(cv.X); ok {
+							return int64(len(p)) >= k
+						}
+					}
+					return false
+				})
+				if pass, _ := mustPass(fn, sl, g); pass {
+					return true, fmt.Sprintf("guarded by HasSuffix(x, suffix) with len(suffix) >= %d", k)
+				}
+				if pass, _ := mustPass(fn, sl, lenAtLeast(func(v ssa.Value) bool { return sameLoc(v, sl.X) }, k)); pass {
+					return true, fmt.Sprintf("guarded by len(x) >= %d", k)
 				}
 			}
 		}
@@ -663,6 +740,12 @@ func transportContractHolds(c *Ctx) (bool, string) {
 			case func() bool { k, isC := constInt(n); return isC && k == 0 }():
 				ok = true
 			case func() bool {
+				// p = buf[:n]
+				sl, isSl := strip(p).(*ssa.Slice)
+				return isSl && sl.Low == nil && sl.Max == nil && sl.High != nil && (sl.High == n || unspill(sl.High) == n)
+			}():
+				ok = true
+			case func() bool {
 				// p = make([]byte, n)
 				if l, isMk := sliceLenValue(strip(p)); isMk && (l == n || unspill(l) == n) {
 					return true
@@ -686,4 +769,77 @@ func isLenOf(n, p ssa.Value) bool {
 	}
 	b, ok := call.Call.Value.(*ssa.Builtin)
 	return ok && b.Name() == "len" && (call.Call.Args[0] == p || strip(call.Call.Args[0]) == strip(p))
+}
+
+// minMakeLen: the allocation length is C, or C + (something non-negative: a len(), a Read count);
+// returns C.
+func minMakeLen(l ssa.Value) (int64, bool) {
+	l = strip(l)
+	if k, ok := constInt(l); ok {
+		return k, true
+	}
+	bo, ok := l.(*ssa.BinOp)
+	if !ok || bo.Op != token.ADD {
+		return 0, false
+	}
+	nonneg := func(v ssa.Value) bool {
+		v = strip(v)
+		if call, ok := v.(*ssa.Call); ok {
+			if b, ok := call.Call.Value.(*ssa.Builtin); ok && b.Name() == "len" {
+				return true
+			}
+		}
+		return false
+	}
+	if k, ok := constInt(bo.X); ok && nonneg(bo.Y) {
+		return k, true
+	}
+	if k, ok := constInt(bo.Y); ok && nonneg(bo.X) {
+		return k, true
+	}
+	return 0, false
+}
+
+// offsetCountBounded: the site is buf[lo:k2+n] where n is the count returned by r.Read(buf[k1:])
+// on the same buf with constants lo <= k2 <= k1: the io.Reader contract gives 0 <= n <= len(buf)-k1,
+// so lo <= k2+n <= len(buf).
+func offsetCountBounded(sl *ssa.Slice) (string, bool) {
+	bo, ok := strip(sl.High).(*ssa.BinOp)
+	if !ok || bo.Op != token.ADD {
+		return "", false
+	}
+	var n ssa.Value
+	var k2 int64
+	if k, ok := constInt(bo.X); ok {
+		k2, n = k, bo.Y
+	} else if k, ok := constInt(bo.Y); ok {
+		k2, n = k, bo.X
+	} else {
+		return "", false
+	}
+	lo := int64(0)
+	if sl.Low != nil {
+		k, ok := constInt(sl.Low)
+		if !ok {
+			return "", false
+		}
+		lo = k
+	}
+	ex, ok := strip(n).(*ssa.Extract)
+	if !ok || ex.Index != 0 {
+		return "", false
+	}
+	call, ok := ex.Tuple.(*ssa.Call)
+	if !ok || !call.Call.IsInvoke() || call.Call.Method.Name() != "Read" || len(call.Call.Args) != 1 {
+		return "", false
+	}
+	win, ok := strip(call.Call.Args[0]).(*ssa.Slice)
+	if !ok || win.High != nil || win.Low == nil || !sameBuf(win.X, sl.X) && win.X != sl.X {
+		return "", false
+	}
+	k1, ok := constInt(win.Low)
+	if !ok || lo > k2 || k2 > k1 || lo < 0 {
+		return "", false
+	}
+	return fmt.Sprintf("io.Reader contract: Read(buf[%d:]) returns 0 <= n <= len(buf)-%d, so buf[%d:%d+n] is within buf", k1, k1, lo, k2), true
 }
